@@ -64,7 +64,21 @@ func checkC15(w *World, r *Report) {
 	}
 	pub := w.Func("x/cfesignature/keeper.msgServer.PublishReferencePayloadLink")
 	ver := w.Func("x/cfesignature/keeper.Keeper.VerifySignature")
-	isv := w.Func("x/cfesignature/keeper.Keeper.isValidSignature")
+	// the verifier is found by what it does, not by its name: the module function called by the query below which
+	// x509's CheckSignature is reached
+	var isv *ssa.Function
+	if ver != nil {
+		for _, s := range cg.Sites[ver] {
+			for _, c := range s.Callees {
+				if !w.isProdFunc(c) {
+					continue
+				}
+				if len(cg.targetsBelow(c, func(x *Site) bool { return strings.HasSuffix(x.CalleeName(), "x509.Certificate.CheckSignature") }, map[*ssa.Function]bool{})) > 0 {
+					isv = c
+				}
+			}
+		}
+	}
 	csk := w.Func("x/cfesignature/keeper.Keeper.CreateStorageKey")
 	gpl := w.Func("x/cfesignature/keeper.Keeper.GetPayloadLink")
 	for n, f := range map[string]*ssa.Function{"PublishReferencePayloadLink": pub, "VerifySignature": ver, "isValidSignature": isv, "CreateStorageKey": csk, "GetPayloadLink": gpl} {
@@ -138,8 +152,22 @@ func checkC15(w *World, r *Report) {
 					if !hasKey {
 						return false
 					}
-					return returnsGetIsNil(w, callee, hp, linkPrefix)
+					return returnsGetIsNil(w, callee, hp, linkPrefix, true)
 				}, true)
+				// the helper may equally answer "is the key taken?": then its false edge is the free edge
+				edges = append(edges, boolCallEdges(fn, func(c *ssa.Call) bool {
+					callee := c.Common().StaticCallee()
+					if callee == nil || callee.Blocks == nil {
+						return false
+					}
+					var hp *ssa.Parameter
+					for i, a := range c.Common().Args {
+						if keyArg != nil && (a == keyArg || samePath(a, keyArg)) && i < len(callee.Params) {
+							hp = callee.Params[i]
+						}
+					}
+					return hp != nil && returnsGetIsNil(w, callee, hp, linkPrefix, false)
+				}, false)...)
 				// or a direct test in the handler
 				r.Check(MustPass(fn, edges, cs.Instr.Block()), "C15.writeonce", "write in "+funcName(fn)+" only when nothing is stored under the key", w.Pos(cs.Instr.Pos()),
 					"dominated by the edge on which store.Get(prefix, same key) == nil", "an existing payload link can be overwritten")
@@ -151,7 +179,7 @@ func checkC15(w *World, r *Report) {
 	var isvCall, gplCall, cskCall, gsCall *Site
 	for _, s := range cg.Sites[ver] {
 		switch {
-		case calleeIs(s, "x/cfesignature/keeper.Keeper.isValidSignature"):
+		case len(s.Callees) == 1 && s.Callees[0] == isv:
 			isvCall = s
 		case calleeIs(s, "x/cfesignature/keeper.Keeper.GetPayloadLink"):
 			gplCall = s
@@ -188,15 +216,15 @@ func checkC15(w *World, r *Report) {
 			strParams = append(strParams, p)
 		}
 	}
-	if len(strParams) != 5 {
-		r.Unk("C15.args", "isValidSignature: five string parameters", w.Pos(isv.Pos()), fmt.Sprintf("%d string parameters", len(strParams)))
+	if len(strParams) < 4 {
+		r.Unk("C15.args", "verifier: string parameters for payload, signature, algorithm, certificate", w.Pos(isv.Pos()), fmt.Sprintf("%d string parameters", len(strParams)))
 		return
 	}
 	argOf := func(p *ssa.Parameter) ssa.Value {
+		off := len(isv.Params) - len(ia) // Args() excludes a receiver, if there is one
 		for i, x := range isv.Params {
-			if x == p {
-				// Args() excludes receiver
-				return ia[i-1]
+			if x == p && i-off >= 0 && i-off < len(ia) {
+				return ia[i-off]
 			}
 		}
 		return nil
@@ -266,11 +294,14 @@ func checkC15(w *World, r *Report) {
 	r.Check(recField(argOf(pAlgo), "Algorithm"), "C15.args", "algorithm role <- stored record.Algorithm", w.Pos(isvCall.Instr.Pos()), "record.Algorithm", "the algorithm used is not the stored algorithm")
 	r.Check(recField(argOf(pCert), "Certificate"), "C15.args", "certificate role <- stored record.Certificate", w.Pos(isvCall.Instr.Pos()), "record.Certificate", "the certificate used is not the stored certificate")
 	// payload
-	pay := argOf(pPayload)
+	pay, paySubst := w.throughHelpers(argOf(pPayload), "util.CalculateHash", "util.HashConcat")
 	okPay := false
 	if h, ok := isCallTo(pay, "util.CalculateHash"); ok {
 		if hc, ok := isCallTo(h.Common().Args[0], "util.HashConcat"); ok {
 			el := varargElems(hc.Common().Args[0])
+			for i := range el {
+				el[i] = paySubst(el[i])
+			}
 			if len(el) == 3 && fromReq(el[0], "TargetAccAddress") && fromReq(el[1], "ReferenceId") {
 				if ex, ok := el[2].(*ssa.Extract); ok && ex.Tuple == gplCall.Instr.(ssa.Value) && ex.Index == 0 {
 					okPay = true
@@ -330,8 +361,8 @@ func checkC15(w *World, r *Report) {
 			if hc, ok := isCallTo(h.Common().Args[0], "util.HashConcat"); ok {
 				el := varargElems(hc.Common().Args[0])
 				if len(el) == 3 {
-					uses["TargetAccAddress"] = append(uses["TargetAccAddress"], el[0])
-					uses["ReferenceId"] = append(uses["ReferenceId"], el[1])
+					uses["TargetAccAddress"] = append(uses["TargetAccAddress"], paySubst(el[0]))
+					uses["ReferenceId"] = append(uses["ReferenceId"], paySubst(el[1]))
 				}
 			}
 		}
@@ -415,14 +446,18 @@ func stringUnderBytes(v ssa.Value) ssa.Value {
 }
 
 // returnsGetIsNil: fn returns (store.Get(prefix-store, bytes(p)) == nil).
-func returnsGetIsNil(w *World, fn *ssa.Function, p *ssa.Parameter, prefix string) bool {
+// returnsGetIsNil: fn returns store.Get(prefix, key) == nil (want "free") or != nil (want "taken") for its key parameter.
+func returnsGetIsNil(w *World, fn *ssa.Function, p *ssa.Parameter, prefix string, wantFree bool) bool {
 	cg := w.CG()
 	rets := Returns(fn)
 	if len(rets) != 1 {
 		return false
 	}
 	bo, ok := retVals(rets[0])[0].(*ssa.BinOp)
-	if !ok || bo.Op != token.EQL || !isNilConst(bo.Y) {
+	if !ok || !isNilConst(bo.Y) {
+		return false
+	}
+	if wantFree && bo.Op != token.EQL || !wantFree && bo.Op != token.NEQ {
 		return false
 	}
 	get, ok := bo.X.(*ssa.Call)
